@@ -25,6 +25,10 @@ type layout struct {
 	shipped bool
 }
 
+// layoutLimit: layouts that hold only the first n rows of the alphabet (the unprunable layout
+// they are compared with is then written from the same subset).
+var layoutLimit = map[string]int{"rowgroup1-limit": 120}
+
 func partByShape(r map[string]any) string {
 	if r == nil {
 		return ""
@@ -144,7 +148,7 @@ func layoutsFor(tier string) []layout {
 					}
 					ls = append(ls, layout{fmt.Sprintf("chunks%d-%s-%g", chunk, comp, rate), func(c bs.BloomSearchEngineConfig) bs.BloomSearchEngineConfig {
 						c.RowDataCompression = comp
-						c.ZstdCompressionLevel = 19
+						c.ZstdCompressionLevel = 4 // the strongest level the encoder accepts (the engine passes the number straight to klauspost's EncoderLevel; 5..22 pass config validation but make every flush fail with "unknown encoder level")
 						c.BloomFalsePositiveRate = rate
 						if chunk%2 == 1 {
 							c.PartitionFunc = partByShape
